@@ -151,8 +151,13 @@ CATS = {
 }
 
 
-def build(pattern, flags: int = 0, api: str = "match") -> NFA:
-    """api: match | fullmatch | search/sub (search semantics only matter for language questions)."""
+def build(pattern, flags: int = 0, api: str = "match", lookaround: str = "error", items_override=None) -> NFA:
+    """api: match | fullmatch | search/sub (search semantics only matter for language questions).
+    lookaround: "error" - a look-ahead / look-behind stops the analysis (language questions cannot ignore it);
+                "epsilon" - it is recorded in nfa.assertions and built as an empty transition: the automaton then has every path
+                the real matcher can take and possibly more (an assertion only ever prunes), which is what an upper bound on
+                backtracking needs.
+    items_override: build from these parsed items (a sub-pattern of `pattern`) instead of the whole pattern."""
     is_bytes = isinstance(pattern, (bytes, bytearray))
     try:
         tree = P.parse(pattern, flags)
@@ -167,7 +172,11 @@ def build(pattern, flags: int = 0, api: str = "match") -> NFA:
     nfa.ignorecase = "ascii" if (eff & re.IGNORECASE and ascii_only) else "unicode" if eff & re.IGNORECASE else ""
     nfa.pattern = pattern if isinstance(pattern, str) else pattern.decode("latin-1")
     nfa.groups = dict(tree.state.groupdict)
-    items = list(tree)
+    nfa.lookaround = lookaround
+    nfa.assertions = []
+    nfa.assert_edges = {}
+    nfa.build_args = (pattern, flags)
+    items = list(tree) if items_override is None else list(items_override)
     # trailing end anchor
     tail = "end" if api == "fullmatch" else "any"
     while items and items[-1][0] is C.AT and items[-1][1] in (C.AT_END, C.AT_END_STRING):
@@ -362,6 +371,12 @@ def _node(nfa: NFA, op, av, s: int, dotall: bool, ascii_only: bool) -> int:
         return out
     if op is C.AT:
         raise AnalysisError(f"anchor {av} in the middle of a pattern is not modelled")
+    if op in (C.ASSERT, C.ASSERT_NOT) and getattr(nfa, "lookaround", "error") == "epsilon":
+        t = nfa.new()
+        nfa.add_eps(s, t)
+        nfa.assertions.append((op is C.ASSERT_NOT, av[0], av[1]))
+        nfa.assert_edges[(s, t)] = (op is C.ASSERT_NOT, av[0], list(av[1]))
+        return t
     raise AnalysisError(f"regex construct {op} is not modelled (back-references, look-arounds, atomic groups are outside the analysis)")
 
 
